@@ -29,7 +29,7 @@ TraceBug == {}
 
 tvars == <<serial, req, slots, ev, out, l, cst, bad, drifted>>
 
-ContractCfg == [svcs |-> Services, required |-> {"host", "ident", "nick", "user"}, timeout |-> TimeoutOn,
+ContractCfg == [svcs |-> IF XQ THEN Services ELSE << >>, required |-> IauthFlags, timeout |-> TimeoutOn, xq |-> XQ,
                 cls |-> IF "cls" \in DOMAIN TraceCfg THEN TraceCfg.cls ELSE [on |-> FALSE, acct |-> "", none |-> ""]]
 
 TInit == /\ Init
